@@ -765,6 +765,18 @@ class World:
         return "ok"
 
     def op_new_cells(self, op):
+        if op.get("via") == "fname":
+            # the name is taken from the function object: space.new_cells(formula=f)
+            sp = self.space(op["s"])
+            import linecache
+            ns = {}
+            text = self.src(op["rec"]["f"], op["c"])
+            fn = "<mxv-fname-%d>" % len(linecache.cache)     # (inspect.getsource must find the text)
+            linecache.cache[fn] = (len(text), None, text.splitlines(True), fn)
+            exec(compile(text, fn, "exec"), ns)
+            c = sp.new_cells(formula=ns[op["c"]], is_cached=op["rec"].get("cached", True))
+            self.fid_of_build[(tuple(sp._impl.idstr.split(".")), c.name)] = op["rec"]["f"]
+            return "ok"
         c = self._new_cells(self.space(op["s"]), op["c"], op["rec"])
         if c.name != op["c"]:
             # modelx silently falls back to the function name / an automatic name
@@ -795,7 +807,11 @@ class World:
         p = op["p"]
         parent = self.space(p[:-1])
         bases = [self.space(b) for b in op.get("bases", [])]
-        parent.new_space(p[-1], bases=bases or None)
+        refs = {n: self.dec_obj(r["v"]) for n, r in op.get("refs", {}).items()}
+        if refs:
+            parent.new_space(p[-1], bases=bases or None, refs=refs)
+        else:
+            parent.new_space(p[-1], bases=bases or None)
         return "ok"
 
     def op_del_space(self, op):
